@@ -141,6 +141,11 @@ pub fn line_alphabet() -> Vec<(&'static str, &'static str)> {
         ("continuation", "+p3(X) <-\n    e(X)"),
         ("srule", "t(X) <- e(X)"),
         ("sfact", "e(9)"),
+        // indented statements: continuation of the previous line, or a statement of its own after a comment
+        ("indented_kguse", "  .kg use B"),
+        ("indented_insert", "  +e(5)"),
+        // creating a KG that already exists fails at execution time
+        ("kgcreate_existing", ".kg create B"),
     ]
 }
 
